@@ -188,6 +188,13 @@ func (n *Net) ExportImport(x string) ([]string, map[string]interface{}) {
 			diff = append(diff, cl)
 		}
 		info["examples"] = examples
+		// "answers every TIBC query identically": the same query battery against both applications at the same block
+		ctxa, ctxb := c.App.BaseApp.NewUncachedContext(false, c.ProposedHeader), app2.BaseApp.NewUncachedContext(false, c.ProposedHeader)
+		cn := clientNames(n, c.App, ctxa)
+		qa := queryDigests(n, c.App, ctxa, cn)
+		qb := queryDigests(n, app2, ctxb, cn)
+		diff = append(diff, queryDiff(qa, qb)...)
+		info["queries"] = len(qa)
 	}()
 	if _, failed := info["default_export_error"]; failed {
 		// the application's own export command (default module list) does not work at all
